@@ -1,11 +1,11 @@
 SPECIFICATION Spec
 CONSTANTS
  RSizes = {8, 16}
- Rs = {1, 2, 3}
+ Rs = {1, 3}
  NMs <- NMt
  Ls = {0, 2}
  Os = {1, 3}
- ModeLs = {0, 2, 4}
+ ModeLs = {0, 2}
  Extras = {0, 3}
 INVARIANT FixedWidth
 INVARIANT Lossless
